@@ -685,6 +685,8 @@ func c13(c *Ctx) (*report.Result, error) {
 	}
 	res.RuleDoc["O13.7"] = "translation, access control and repair keep no memory between messages: no shipped function of the interceptor, proto/compat, auth and collect packages stores into package-level state, receiver fields or sync.Maps after construction - a cache keyed by message type or content makes the treatment of one message depend on the ones before it"
 	checkStateless(c, res, "O13.7", []string{"interceptor", "proto/compat", "auth", "collect"}, map[string]string{})
+	res.RuleDoc["O13.8"] = "no swallowed error in the files the mechanism lives in: no function returns a nil error on a path on which an error obtained from a call is known to be non-nil (io.EOF from a stream Recv, the normal end of a receive loop, is the one accepted idiom)"
+	checkNoSwallowedErrors(c, res, "O13.8", []string{"interceptor/translator.go", "interceptor/reflection.go", "interceptor/translation_interceptor.go", "collect/bimap.go", "config/cluster_conn_config.go", "config/config.go"})
 	return res, nil
 }
 
